@@ -238,9 +238,12 @@ theorem C12_component_table_is_rfc_layout (cls ty : Nat) :
     componentTypes cls ty = some ((Spec.Message.layoutOf ty cls).map layToComp) :=
   componentTypes_layout cls ty
 
-/-! ## (d) in every compression mode: structure, and the round trip of each record
+/-! ## (d) in every compression mode
 
-  For `Standard` and `CasePreserving` mode the refinement is proved in two parts.
+  The refinement for `Standard` and `CasePreserving` mode is `C12_refinement_all_modes` (the single
+  statement, at the end of this file) with its corollary `C12_refinement_without_standard_mode`
+  (decoded message = abstract message, exactly). The theorems before it state its parts for the
+  independent message decoder of `QV.Spec.MsgDecode` (the oracle of C02):
   * **Structure, for all sequences of calls** (`C12_finished_message_decodes_all_modes`): the
     finished message — if at most 65535 octets, as every DNS message is — decodes completely under
     the independent message decoder of `QV.Spec.MsgDecode`: exactly QDCOUNT questions and
@@ -256,7 +259,8 @@ theorem C12_component_table_is_rfc_layout (cls ty : Nat) :
   * **Content, all records of a session** (`C12_records_are_the_calls_all_modes`, below): the decoded
     questions and records are, section by section and in order, those of the calls that succeeded.
   * **RDATA** (`C12_rdata_round_trip_all_modes`, below): the RDATA of a record reads back field by
-    field, the names inside it decompressed to the names given. -/
+    field, the names inside it decompressed to the names given.
+  * **The whole message, RFC-layout decoder** (`C12_refinement_all_modes`, below). -/
 
 theorem C12_finished_message_decodes_all_modes (macFn : Tsig → List UInt8 → List UInt8) (hmac : MacLenOK macFn)
     (buf : Bytes) (limit : Nat) (s0 : State) (hnew : Writer.new buf limit = .ok s0) (mode : CMode)
@@ -307,7 +311,8 @@ theorem C12_question_round_trip_all_modes (qn : WName) (qt qc : Nat) (s s' : Sta
   the additional section by the OPT record (payload size as CLASS, extended RCODE/version as TTL)
   and the TSIG record (key name, ANY, TTL 0). "Is the one given" (`RMatch`, `QMatch`): the decoded
   name, decompressed by the independent decoder, equals the name given up to ASCII case — octet
-  for octet if the call was made in `CasePreserving` or `Disabled` mode —, TYPE, CLASS, TTL are
+  for octet if the call was made in `CasePreserving` or `Disabled` mode (the mode `it.m` of every
+  item is the initial mode or one set by a `set_compression_mode` call of the session) —, TYPE, CLASS, TTL are
   the values given, and the RDATA is the RDATA given, octet for octet, for every type whose RDATA
   holds no compressible name (`Rdata::components` lists none: everything but NS, MD, MF, CNAME,
   SOA, MB, MG, MR, PTR, MINFO, MX). Underneath (`RdAt`, `QV.Proofs.WriterRdPos`): for every record
@@ -323,15 +328,17 @@ theorem C12_records_are_the_calls_all_modes (macFn : Tsig → List UInt8 → Lis
       ∃ (d : Spec.DMsg) (qs : List QItC) (ian ins iar : List RItC), Spec.specDecodeMsg m = some d ∧
         qs.map (·.q) = given.qs ∧ ian.map (·.r) = given.an ∧ ins.map (·.r) = given.ns ∧
         iar.map (·.r) = given.ar ++ optRecs' out.1.w.edns ++ tsigRecs out.1.w.tsig mac ∧
-        All2 QMatch qs d.questions ∧ All2 RMatch ian d.an ∧ All2 RMatch ins d.ns ∧ All2 RMatch iar d.ar) := by
+        All2 QMatch qs d.questions ∧ All2 RMatch ian d.an ∧ All2 RMatch ins d.ns ∧ All2 RMatch iar d.ar ∧
+        (∀ it ∈ qs, it.m = mode ∨ Op.setMode it.m ∈ ops) ∧
+        ∀ it ∈ ian ++ ins ++ iar, it.m = mode ∨ Op.setMode it.m ∈ ops) := by
   intro out given
   have hI0 : I { s0 with mode := mode } := (safe_setMode mode s0 (new_i buf limit s0 hnew)).2
-  have hL0 : CLay { s0 with mode := mode } {} := clay_setMode mode s0 (clay_new buf limit s0 hnew)
+  have hL0 : CLay (fun m => m = mode ∨ Op.setMode m ∈ ops) { s0 with mode := mode } {} :=
+    clay_new buf limit s0 hnew mode (Or.inl rfl)
   have hI := (run_I { w := { s0 with mode := mode } } ops hI0 hr).2
-  have hL := clay_run { w := { s0 with mode := mode } } ops {} hI0 hL0 hr
+  have hL := clay_run { w := { s0 with mode := mode } } ops {} hI0 hL0 hr (fun m hm => Or.inr hm)
   obtain ⟨m, mac, hf⟩ := finish_ok macFn hmac out.1.w hI
   exact ⟨m, mac, hf, fun hsz => finish_decodes_content macFn out.1.w given hI hL m mac hf hsz⟩
-
 
 /-! ### the RDATA of a record reads back, names inside it decompressed (every mode)
 
@@ -353,5 +360,80 @@ theorem C12_rdata_round_trip_all_modes (hint : Hint) (owner : WName) (ty cls ttl
       Spec.Message.decodeRdata (s'.octets.extract 0 s'.cursor) item ty cls (s.cursor + k + 10) len = some (df, ns) ∧
       All2 (FieldMatch (s.mode ≠ .standard)) gf df :=
   addRr_rdata_round_trip hint owner ty cls ttl rd s s' hw hl hwf hh h hle item
+
+
+/-! ### (d) in every compression mode: the single statement
+
+  `C12_refinement_all_modes`: for every buffer, limit, initial mode and every sequence of public calls
+  (arguments of the Rust types: 16-bit types and classes, …; hint contract respected), with any
+  mode changes, templates, `clear_rrs`, EDNS and TSIG: `finish` succeeds and its message (if at most
+  65535 octets), read by the specification's RFC 1035 decoder `QV.Spec.Message.specDecodeMsg`
+  (pointers followed, names decompressed, RDATA expanded along the RFC layouts), is: the header
+  octets of the writer (`C12_header_all_sequences` says what they are) and, section by section and
+  in order, exactly the questions and records of the calls that succeeded (a failed call adds
+  nothing; `clear_rrs` removes the records), followed in the additional section by the OPT and TSIG
+  records — where `QuestionIs ex` / `RecordIs ex` say: names (QNAME, owner, and every name inside
+  RDATA, decompressed) equal to the names given up to ASCII case, and octet for octet if `ex`; TYPE,
+  CLASS, TTL and every other RDATA octet as given. `ex` may be taken `True` whenever neither the
+  initial mode nor any mode set during the session is `Standard`, and `False` always.
+
+  `C12_refinement_without_standard_mode`: with `ex = True`, the decoded message *equals* the abstract
+  message of the successful calls — the statement of `C12_disabled_refinement`, now for
+  `CasePreserving` (and any mix of `CasePreserving` and `Disabled`). -/
+theorem C12_refinement_all_modes (macFn : Tsig → List UInt8 → List UInt8) (hmac : MacLenOK macFn)
+    (buf : Bytes) (limit : Nat) (s0 : State) (hnew : Writer.new buf limit = .ok s0) (mode : CMode)
+    (ops : List Op) (ht : ∀ op ∈ ops, op.Typed) (hr : Respects { w := { s0 with mode := mode } } ops)
+    (ex : Prop) (hex : ex → mode ≠ .standard ∧ ∀ m, Op.setMode m ∈ ops → m ≠ .standard) :
+    ∃ m mac, finish (run { w := { s0 with mode := mode } } ops).1.w macFn = .ok (m, mac) ∧ (m.size ≤ 65535 →
+      ∃ d : Spec.Message.Decoded, Spec.Message.specDecodeMsg m = some d ∧
+        d.msg.header = specHeader (run { w := { s0 with mode := mode } } ops).1.w.octets ∧
+        All2 (QuestionIs ex) (bodyRun {} ops (run { w := { s0 with mode := mode } } ops).2).qs d.msg.questions ∧
+        All2 (RecordIs ex) (bodyRun {} ops (run { w := { s0 with mode := mode } } ops).2).an d.msg.answers ∧
+        All2 (RecordIs ex) (bodyRun {} ops (run { w := { s0 with mode := mode } } ops).2).ns d.msg.authorities ∧
+        All2 (RecordIs ex) ((bodyRun {} ops (run { w := { s0 with mode := mode } } ops).2).ar ++
+          optRecs' (run { w := { s0 with mode := mode } } ops).1.w.edns ++
+          tsigRecs (run { w := { s0 with mode := mode } } ops).1.w.tsig mac) d.msg.additionals) :=
+  refines_all_modes macFn hmac buf limit s0 hnew mode ops ht hr ex hex
+
+theorem C12_refinement_without_standard_mode (macFn : Tsig → List UInt8 → List UInt8) (hmac : MacLenOK macFn)
+    (buf : Bytes) (limit : Nat) (s0 : State) (hnew : Writer.new buf limit = .ok s0) (mode : CMode)
+    (ops : List Op) (ht : ∀ op ∈ ops, op.Typed) (hr : Respects { w := { s0 with mode := mode } } ops)
+    (hm0 : mode ≠ .standard) (hms : ∀ m, Op.setMode m ∈ ops → m ≠ .standard) :
+    ∃ m mac, finish (run { w := { s0 with mode := mode } } ops).1.w macFn = .ok (m, mac) ∧ (m.size ≤ 65535 →
+      ∃ d : Spec.Message.Decoded, Spec.Message.specDecodeMsg m = some d ∧
+        d.msg = ⟨specHeader (run { w := { s0 with mode := mode } } ops).1.w.octets,
+          (bodyRun {} ops (run { w := { s0 with mode := mode } } ops).2).qs.map specQ,
+          (bodyRun {} ops (run { w := { s0 with mode := mode } } ops).2).an.map specR,
+          (bodyRun {} ops (run { w := { s0 with mode := mode } } ops).2).ns.map specR,
+          ((bodyRun {} ops (run { w := { s0 with mode := mode } } ops).2).ar ++
+            optRecs (run { w := { s0 with mode := mode } } ops).1.w.edns ++
+            tsigRecs (run { w := { s0 with mode := mode } } ops).1.w.tsig mac).map specR⟩) :=
+  refines_exact macFn hmac buf limit s0 hnew mode ops ht hr hm0 hms
+
+/-! non-vacuity: a `CasePreserving` session that respects the contract, whose calls all succeed, and
+    that emits two pointers (owner = QNAME; the CNAME target shares a suffix with it) — all
+    hypotheses of `C12_refinement_without_standard_mode` hold for it, and the message has a question
+    and an answer -/
+
+def nvOps : List Op := [.addQuestion ⟨[[119, 119, 119], [97]]⟩ 1 1,
+  .addRr .answer (.direct .none) ⟨[[119, 119, 119], [97]]⟩ 5 1 60 [1, 98, 1, 97, 0] none]
+
+def nvS : State := match Writer.new (Array.replicate 64 0) 64 with | .ok s => s | _ => default
+
+example : Writer.new (Array.replicate 64 0) 64 = .ok nvS ∧
+    (∀ op ∈ nvOps, op.Typed) ∧ Respects { w := { nvS with mode := .casePreserving } } nvOps ∧
+    CMode.casePreserving ≠ .standard ∧ (∀ m, Op.setMode m ∈ nvOps → m ≠ .standard) ∧
+    (run { w := { nvS with mode := .casePreserving } } nvOps).2 = [.ok (), .ok ()] ∧
+    ((run { w := { nvS with mode := .casePreserving } } nvOps).1.w.gPtrs.map fun e => (e.pos, e.target)) =
+      [(37, 16), (23, 12)] := by
+  have hwf : WName.WF ⟨[[119, 119, 119], [97]]⟩ := by decide
+  refine ⟨rfl, ?_, ⟨hwf, ⟨hwf, trivial⟩, trivial⟩, by decide, ?_, by decide +kernel, by decide +kernel⟩
+  · intro op hop
+    simp only [nvOps, List.mem_cons, List.mem_nil_iff, or_false] at hop
+    rcases hop with rfl | rfl
+    · exact ⟨hwf, by decide, by decide⟩
+    · exact ⟨hwf, by decide, by decide, by decide⟩
+  · intro m hm
+    simp [nvOps] at hm
 
 end QV.C12
